@@ -30,6 +30,13 @@ theorem Int.compare_lt_iff' (x y : Int) : compare x y = .lt ↔ x < y := by
 theorem String.compare_lt_trans (x y z : String) (h1 : compare x y = .lt) (h2 : compare y z = .lt) :
     compare x z = .lt := Std.TransCmp.lt_trans h1 h2
 
+theorem String.compare_le_trans (x y z : String) (h1 : compare x y ≠ .gt) (h2 : compare y z ≠ .gt) :
+    compare x z ≠ .gt := by
+  have a1 : (compare x y).isLE = true := by cases h : compare x y <;> simp_all [Ordering.isLE]
+  have a2 : (compare y z).isLE = true := by cases h : compare y z <;> simp_all [Ordering.isLE]
+  have := Std.TransCmp.isLE_trans a1 a2
+  cases h : compare x z <;> simp_all [Ordering.isLE]
+
 namespace Dec
 
 theorem align_swap (a b : Dec) :
@@ -74,6 +81,20 @@ theorem scaled_lt_iff (a b : Dec) (s : Int) (hs : s ≤ min a.exp b.exp) :
   have hb : (b.exp - s).toNat = (b.exp - min a.exp b.exp).toNat + (min a.exp b.exp - s).toNat := by omega
   rw [ha, hb, Int.pow_add, Int.pow_add, ← Int.mul_assoc, ← Int.mul_assoc]
   exact Int.mul_lt_mul_right (Int.pow_pos (by decide))
+
+theorem scaled_le_iff (a b : Dec) (s : Int) (hs : s ≤ min a.exp b.exp) :
+    a.scoeff * (10 : Int) ^ (a.exp - s).toNat ≤ b.scoeff * (10 : Int) ^ (b.exp - s).toNat ↔ cmp a b ≠ .gt := by
+  have hl := scaled_lt_iff a b s hs
+  have he := scaled_eq_iff a b s hs
+  generalize a.scoeff * (10 : Int) ^ (a.exp - s).toNat = X at *
+  generalize b.scoeff * (10 : Int) ^ (b.exp - s).toNat = Y at *
+  cases hc : cmp a b <;> simp [hc] at hl he ⊢ <;> omega
+
+/-- `<=` on numbers (`cmp ≠ gt`) is transitive. -/
+theorem cmp_le_trans (a b c : Dec) (h1 : cmp a b ≠ .gt) (h2 : cmp b c ≠ .gt) : cmp a c ≠ .gt := by
+  have e1 := (scaled_le_iff a b (min a.exp (min b.exp c.exp)) (by omega)).mpr h1
+  have e2 := (scaled_le_iff b c (min a.exp (min b.exp c.exp)) (by omega)).mpr h2
+  exact (scaled_le_iff a c (min a.exp (min b.exp c.exp)) (by omega)).mp (Int.le_trans e1 e2)
 
 theorem cmp_lt_trans (a b c : Dec) (h1 : cmp a b = .lt) (h2 : cmp b c = .lt) : cmp a c = .lt := by
   have e1 := (scaled_lt_iff a b (min a.exp (min b.exp c.exp)) (by omega)).mpr h1
@@ -286,6 +307,60 @@ theorem instantLt_trans (a b c : Instant)
   unfold instantCompare? at *
   cases ha : a.key <;> cases hb : b.key <;> cases hc : c.key <;>
     simp [ha, hb, hc, Int.compare_lt_iff'] at h1 h2 ⊢
+  omega
+
+/-! ## `<=`: transitivity helpers -/
+
+theorem dateTupleCmp_ne_gt_iff (y1 : Int) (m1 d1 : Nat) (y2 : Int) (m2 d2 : Nat) :
+    dateTupleCmp y1 m1 d1 y2 m2 d2 ≠ .gt ↔
+      (y1 < y2 ∨ (y1 = y2 ∧ (m1 < m2 ∨ (m1 = m2 ∧ d1 ≤ d2)))) := by
+  unfold dateTupleCmp
+  by_cases a1 : y1 < y2
+  · simp [a1]
+  · by_cases a2 : y1 > y2
+    · simp [a1, a2] <;> omega
+    · have e : y1 = y2 := by omega
+      subst e
+      by_cases b1 : m1 < m2
+      · simp [b1]
+      · by_cases b2 : m1 > m2
+        · simp [b1, b2] <;> omega
+        · have e : m1 = m2 := by omega
+          subst e
+          by_cases c1 : d1 < d2
+          · simp [c1] <;> omega
+          · by_cases c2 : d1 > d2
+            · simp [c1, c2] <;> omega
+            · have e : d1 = d2 := by omega
+              subst e
+              simp
+
+theorem dateTupleCmp_le_trans (y1 : Int) (m1 d1 : Nat) (y2 : Int) (m2 d2 : Nat) (y3 : Int) (m3 d3 : Nat)
+    (h1 : dateTupleCmp y1 m1 d1 y2 m2 d2 ≠ .gt) (h2 : dateTupleCmp y2 m2 d2 y3 m3 d3 ≠ .gt) :
+    dateTupleCmp y1 m1 d1 y3 m3 d3 ≠ .gt := by
+  rw [dateTupleCmp_ne_gt_iff] at *
+  omega
+
+theorem instantLe_trans (a b c : Instant)
+    (h1 : (instantCompare? a b).map (· != Ordering.gt) = some true)
+    (h2 : (instantCompare? b c).map (· != Ordering.gt) = some true) :
+    (instantCompare? a c).map (· != Ordering.gt) = some true := by
+  unfold instantCompare? at *
+  cases ha : a.key <;> cases hb : b.key <;> cases hc : c.key <;>
+    simp [ha, hb, hc] at h1 h2 ⊢
+  rename_i x y z
+  have gt_of : ∀ p q : Int, q < p → compare p q = .gt := by
+    intro p q h
+    rw [Int.compare_swap' q p, (Int.compare_lt_iff' q p).mpr h]; rfl
+  have lt_of_gt : ∀ p q : Int, compare p q = .gt → q < p := by
+    intro p q h
+    have := Int.compare_swap' p q
+    rw [h] at this
+    exact (Int.compare_lt_iff' q p).mp this
+  have e1 : ¬ y < x := fun h => h1 (gt_of x y h)
+  have e2 : ¬ z < y := fun h => h2 (gt_of y z h)
+  intro hg
+  have := lt_of_gt x z hg
   omega
 
 theorem optBool_true_iff (o : Option Bool) : optBool o = .bool true ↔ o = some true := by
